@@ -98,10 +98,28 @@ fn trade_price(p: &Option<String>) -> (f64, Option<Decimal>) {
         }
     }
 }
+/// local receive time of a market event: later than the exchange time by 0 ns .. 2 s, or earlier
+/// (clock skew); a deterministic function of the event so that a case replays from its input.
+/// The engine state must not depend on it (the model ignores it).
+fn received_offset(i: usize, t: i64) -> i64 {
+    const OFFS: [i64; 8] = [
+        0,
+        1,
+        1_000,
+        250_000,
+        1_500_000_000,
+        2_000_000_000,
+        -500_000_000,
+        -3,
+    ];
+    let mut z = (t as u64 ^ ((i as u64) << 56)).wrapping_mul(0x9E37_79B9_7F4A_7C15);
+    z ^= z >> 29;
+    OFFS[(z % 8) as usize]
+}
 fn market(i: usize, t: i64, kind: DataKind) -> MarketEvent<InstrumentIndex, DataKind> {
     MarketEvent {
         time_exchange: time(t),
-        time_received: time(t + 1),
+        time_received: time(t + received_offset(i, t)),
         exchange: ExchangeId::BinanceSpot,
         instrument: InstrumentIndex(i),
         kind,
@@ -457,8 +475,19 @@ fn bal(a: usize, t: i64, u: u32) -> BalJ {
         free: format!("{}.5", 50 + u),
     }
 }
+/// filled quantity of a generated open report (order quantity is 100): mostly 1..99 (something
+/// left), for u = 4 mod 6 slightly ABOVE the quantity, for u = 5 mod 12 far above it (an
+/// over-filled report: the remaining quantity is negative, not zero, the order stays open)
+fn fill_of(u: u32) -> String {
+    if u % 6 == 4 {
+        format!("{}.5", 100 + (u % 50))
+    } else if u % 12 == 5 {
+        format!("{}", 1000 + u)
+    } else {
+        format!("{}", 1 + (u % 99))
+    }
+}
 fn open_snap(i: usize, c: u32, t: i64, u: u32) -> OrdJ {
-    // quantity 100, filled 1..99 : always something left
     OrdJ {
         key: KeyJ { e: 0, i, s: 7, c },
         side: "B".into(),
@@ -470,7 +499,7 @@ fn open_snap(i: usize, c: u32, t: i64, u: u32) -> OrdJ {
             m: MetaJ {
                 oid: 5,
                 t,
-                f: format!("{}", 1 + (u % 99)),
+                f: fill_of(u),
             },
         },
     }
@@ -545,6 +574,25 @@ fn gen_table() -> Vec<Input9> {
                     v.push(Input9 {
                         ninst: 2,
                         xs: vec![msg(f[0], 0, t1, 1), msg(f[1], 0, t2, 2), msg(f[0], 0, t3, 3)],
+                    });
+                }
+            }
+        }
+    }
+    // over-filled open reports (slightly above: u = 4, far above: u = 5) before / after ordinary
+    // ones, every timestamp pair, direct and inside full account snapshots
+    for (ka, kb) in [
+        (Kind::OrdOpen, Kind::OrdOpen),
+        (Kind::AcctOrd, Kind::AcctOrd),
+        (Kind::OrdOpen, Kind::AcctOrd),
+        (Kind::AcctOrd, Kind::OrdOpen),
+    ] {
+        for (u1, u2) in [(4, 2), (5, 2), (1, 4), (1, 5), (4, 5)] {
+            for t1 in 1..=3 {
+                for t2 in 1..=3 {
+                    v.push(Input9 {
+                        ninst: 2,
+                        xs: vec![msg(ka, 1, t1, u1), msg(kb, 1, t2, u2), msg(ka, 1, 1, 3)],
                     });
                 }
             }
@@ -655,13 +703,17 @@ fn gen_cancel_table() -> Vec<Input9> {
         vec![rec_open(i, c)],
         vec![rec_open(i, c), rec_cancel(i, c)],
     ];
-    for pre in &pres {
+    for (pi, pre) in pres.iter().enumerate() {
+      for u_first in [1u32, 5] {
+        if u_first == 5 && pi == 2 {
+            continue;
+        }
         for cancels in 0..=2 {
             for late_t in 1..=3 {
                 for in_snapshot in [false, true] {
                     for resp in 0..3 {
                         let mut xs = pre.clone();
-                        xs.push(open_report(i, c, 2, 1, false));
+                        xs.push(open_report(i, c, 2, u_first, false));
                         for _ in 0..cancels {
                             xs.push(rec_cancel(i, c));
                         }
@@ -677,6 +729,7 @@ fn gen_cancel_table() -> Vec<Input9> {
                 }
             }
         }
+      }
     }
     v
 }
